@@ -13,6 +13,7 @@ import ast
 from ..flow import Flow
 from ..norm import Poly
 from ..ordercell import CellEval, CellExec, Undecided
+from ..ordercell import Raised as _Raised
 from ..report import where_of
 from ..source import dotted_name
 from ..units import UnitError, fmt, mul, unit_of_name
@@ -113,6 +114,10 @@ def run(ctx, chk, tier="quick"):
                    why="T(zeta) = T_min + integral of K from the lowest knot up to zeta, and T_min at or below it")
         except Undecided as exc:
             chk.indeterminate("C15.O1", where_of(cs, cs.node), "%s: %s" % (label, exc))
+        except _Raised as exc:
+            chk.ob("C15.O1", False, where_of(cs, cs.node), "%s: the function refuses the level (%s)" % (label, str(exc)[:70]), want.key(),
+                   key="SplineTransmissivity.call_scalar|%s" % label,
+                   why="transmissivity is defined for every level at or below the highest knot, the knot itself included")
 
     # ---------------- O2
     cond = ctx.func("transmissivity.SplineTransmissivity.conductivity")
